@@ -135,8 +135,8 @@ theorem kinv_handleEstablished (k : Kernel) (fd : Fd) (l r : Ep) (sy a f : Bool)
   repeat' (first | exact h | split | (dsimp only; split))
   all_goals first | exact h | exact kinv_modTcb _ _ _ h | exact kinv_emit _ _ (kinv_modTcb _ _ _ h)
 
-theorem kinv_handleOnConn (k : Kernel) (fd : Fd) (l r : Ep) (sy a f rs : Bool) (h : KInv k) :
-    KInv (k.handleOnConn fd l r sy a f rs) := by
+theorem kinv_handleOnConn (k : Kernel) (fd : Fd) (l r : Ep) (sy a f rs hs : Bool) (h : KInv k) :
+    KInv (k.handleOnConn fd l r sy a f rs hs) := by
   unfold handleOnConn
   repeat' (first | exact h | split | (dsimp only; split))
   all_goals first
@@ -147,11 +147,11 @@ theorem kinv_handleOnConn (k : Kernel) (fd : Fd) (l r : Ep) (sy a f rs : Bool) (
     | exact kinv_pushToListener _ _ _ (kinv_modTcb _ _ _ h)
     | exact kinv_handleEstablished _ _ _ _ _ _ _ h
 
-theorem kinv_deliverTcp (k : Kernel) (s d : Ep) (sy a f r : Bool) (h : KInv k) :
-    KInv (k.deliverTcp s d sy a f r) := by
+theorem kinv_deliverTcp (k : Kernel) (s d : Ep) (sy a f r hs : Bool) (h : KInv k) :
+    KInv (k.deliverTcp s d sy a f r hs) := by
   unfold deliverTcp
   split
-  · exact kinv_handleOnConn _ _ _ _ _ _ _ _ h
+  · exact kinv_handleOnConn _ _ _ _ _ _ _ _ _ h
   · exact kinv_acceptSyn _ _ _ _ h
   · exact h
   · exact h
@@ -160,7 +160,8 @@ theorem kinv_deliver (k : Kernel) (p : Pkt) (h : KInv k) : KInv (k.deliver p) :=
   unfold deliver
   split
   · exact kinv_deliverUdp _ _ _ _ h
-  · exact kinv_deliverTcp _ _ _ _ _ _ _ h
+  · exact kinv_deliverTcp _ _ _ _ _ _ _ _ h
+  · exact kinv_deliverTcp _ _ _ _ _ _ _ _ h
 
 theorem kinv_segmentAll (k : Kernel) (h : KInv k) : KInv k.segmentAll := by
   unfold segmentAll
